@@ -170,11 +170,12 @@ Lemma fold_sum_float : forall (avg : bool) vs fs s K,
   st_sumf s = enc_dy K -> Z.abs K + 2 ^ 43 * zlen fs < 2 ^ 53 ->
   exists s', fold_upd (if avg then KAvg else KSum) s (map Some vs) = SOk s' /\
              st_sumf s' = enc_dy (K + ksum fs) /\ st_sum s' = st_sum s /\
-             st_count s' = st_count s + (if avg then zlen fs else 0).
+             st_count s' = st_count s + (if avg then zlen fs else 0) /\
+             st_seen s' = (if avg then st_seen s else st_seen s || match fs with [] => false | _ => true end).
 Proof.
   intros avg. induction vs as [|v t IH]; intros fs s K H Sf E B.
   - cbn in H; injection H as <-. exists s. unfold ksum, zlen. cbn [map fold_upd zsum fold_right length].
-    split; [reflexivity|]. split; [rewrite E; f_equal; lia|]. split; [reflexivity|destruct avg; lia].
+    split; [reflexivity|]. split; [rewrite E; f_equal; lia|]. split; [reflexivity|]. split; [destruct avg; lia|destruct avg; [reflexivity|now rewrite orb_false_r]].
   - destruct (floats_of_nonnull_cons _ _ _ H) as [[-> H']|[b [fs' [-> [-> H']]]]].
     + cbn [map fold_upd]. replace (upd (if avg then KAvg else KSum) s (Some VNull)) with (SOk s) by (destruct avg; reflexivity).
       cbn [sbind]. now apply IH.
@@ -185,16 +186,17 @@ Proof.
       pose proof (f_add_enc K b HK Sb HK') as FA.
       destruct (enc_dy_scaled (K + kof b) HK') as [_ [Fin _]].
       set (s1 := with_sumf s (enc_dy (K + kof b))).
-      set (s2 := if avg then with_count s1 (st_count s1 + 1) else s1).
+      set (s2 := if avg then with_count s1 (st_count s1 + 1) else with_seen s1 true).
       assert (U : upd (if avg then KAvg else KSum) s (Some (VFloat b)) = SOk s2).
       { unfold s2, s1. destruct avg; cbn [upd]; unfold add_float; rewrite E, FA, Fin; reflexivity. }
       cbn [map fold_upd]. rewrite U. cbn [sbind].
-      destruct (IH fs' s2 (K + kof b) H' Sf') as [s' [F [A1 [A2 A3]]]].
+      destruct (IH fs' s2 (K + kof b) H' Sf') as [s' [F [A1 [A2 [A3 A4]]]]].
       * unfold s2, s1. destruct avg; reflexivity.
       * lia.
       * exists s'. split; [exact F|]. unfold ksum in *. cbn [map]. rewrite zsum_cons.
         split; [rewrite A1; f_equal; lia|]. split; [rewrite A2; unfold s2, s1; destruct avg; reflexivity|].
-        rewrite A3. unfold s2, s1. destruct avg; cbn [with_count with_sumf st_count]; rewrite ?zlen_cons; lia.
+        split; [rewrite A3; unfold s2, s1; destruct avg; cbn [with_count with_sumf with_seen st_count]; rewrite ?zlen_cons; lia|].
+        rewrite A4. unfold s2, s1. destruct avg; cbn [with_count with_sumf with_seen st_seen]; [reflexivity|]. now rewrite orb_true_r.
 Qed.
 
 (* the result of the fold matches the reference: equal, or equal as SQL values (a zero sum of doubles
@@ -223,9 +225,9 @@ Proof.
   - unfold sum_spec in A. destruct (nonnull vs) as [|x nn] eqn:Nn; [rewrite NN in Nn; discriminate|].
     rewrite I in A. destruct (sum_double (x :: nn)) as [a|] eqn:Sd; [|discriminate]. injection A as <-. rewrite <- Nn in F.
     destruct (Hsd a eq_refl) as [Sf [L [-> HB]]].
-    destruct (fold_sum_float false vs (b0 :: ft) st0 0 F Sf eq_refl) as [s [E [A1 [A2 A3]]]].
+    destruct (fold_sum_float false vs (b0 :: ft) st0 0 F Sf eq_refl) as [s [E [A1 [A2 [A3 A4]]]]].
     { pose proof (ksum_bound _ Sf). change (2 ^ 53) with (2 ^ 43 * 1024). change (2 ^ 43) with 8796093022208 in *. lia. }
-    exists s. split; [exact E|]. cbn [fin]. rewrite A2, A1. cbn [st0 st_sum]. replace (0 =? 0) with true by reflexivity. cbn [negb].
+    exists s. split; [exact E|]. cbn [fin]. rewrite A4. cbn [st0 st_seen orb negb]. rewrite A2, A1. cbn [st0 st_sum]. replace (0 =? 0) with true by reflexivity. cbn [negb].
     replace (0 + ksum (b0 :: ft)) with (ksum (b0 :: ft)) by lia.
     destruct (enc_dy_scaled _ HB) as [_ [_ Z0]]. rewrite Z0.
     destruct (ksum (b0 :: ft) =? 0) eqn:K0; cbn [negb].
@@ -237,7 +239,7 @@ Proof.
       by exact A.
     rewrite <- Nn in F.
     destruct (Hsd a eq_refl) as [Sf [L [-> HB]]].
-    destruct (fold_sum_float true vs (b0 :: ft) st0 0 F Sf eq_refl) as [s [E [A1 [A2 A3]]]].
+    destruct (fold_sum_float true vs (b0 :: ft) st0 0 F Sf eq_refl) as [s [E [A1 [A2 [A3 A4]]]]].
     { pose proof (ksum_bound _ Sf). change (2 ^ 53) with (2 ^ 43 * 1024). change (2 ^ 43) with 8796093022208 in *. lia. }
     exists s. split; [exact E|]. cbn [fin]. rewrite A2, A1, A3. cbn [st0 st_sum st_count]. replace (0 =? 0) with true by reflexivity. cbn [negb].
     replace (0 + ksum (b0 :: ft)) with (ksum (b0 :: ft)) by lia.
